@@ -137,6 +137,13 @@ theorem model_closed_forms_are_F_and_T (d : Nat) (a b : Fin d → Rat) (ha : ∀
 example : IsProb (fun _ : Fin 2 => (1 / 2 : ℝ)) := ⟨fun _ => by norm_num, by simp⟩
 end commuting
 
+open scoped MatrixOrder ComplexOrder in
+/-- two clauses of the general statement below that do not need spectral theory (any dimension, Mathlib's `CFC.sqrt`): the
+    Uhlmann fidelity is a nonnegative real number, and `F(ρ, ρ) = (tr ρ)²` — 1 for every density matrix. -/
+theorem uhlmann_nonneg_and_self {ι : Type} [Fintype ι] [DecidableEq ι] (ρ σ : Matrix ι ι ℂ) (hρ : ρ.PosSemidef) :
+    0 ≤ C17B.uhlmann ρ σ ∧ C17B.uhlmann ρ ρ = (Matrix.trace ρ) ^ 2 :=
+  ⟨C17B.uhlmann_nonneg ρ σ, C17B.uhlmann_self ρ hρ⟩
+
 /-- the full statement for arbitrary (non-commuting) density matrices, kept visible.  It is **not expressible** in the
     exact model (matrix square roots of irrational spectra) and is not proved: `uhlmann ρ σ` stands for
     `(tr √(√ρ σ √ρ))²`, `tnorm` for the trace norm. -/
